@@ -259,12 +259,12 @@ type guardRes struct {
 }
 
 type ganalyzer struct {
-	pkg        *gpkg
-	msgMethods map[string]bool // methods of the message type that read the signer field
-	signerSel  []string        // Go selector path of the signer field, e.g. ["Owner"] or ["Lp","FundsAddr"]
-	res        *guardRes
-	hooks      map[string][]xfunc // Before… methods of every x/*/keeper package
-	firstLook  string
+	pkg           *gpkg
+	msgMethods    map[string]bool // methods of the message type that read the signer field
+	signerSel     []string        // Go selector path of the signer field, e.g. ["Owner"] or ["Lp","FundsAddr"]
+	res           *guardRes
+	hooks         map[string][]xfunc // Before… methods of every x/*/keeper package
+	firstLook     string
 	sawSignerCall bool
 }
 
